@@ -87,7 +87,8 @@ def lint(project, source, filename=None, debug=False):
             continue
         if isinstance(flow.scope, IGNORED_SCOPES):
             if isinstance(name, ImportedName):
-                if name.module == '__future__':
+                if name.module == '__future__' and name.mname:
+                    # (from __future__ import x - not the module imported by name)
                     continue
                 if name.name in qualified_imports:
                     continue
